@@ -22,6 +22,12 @@ CHECKS = {
             'hold on every path inside the stated bounds.',
             'Trusted: CrossHair models, z3, urllib.parse; packet-type characters range over an adversarial table '
             '(int(str) is not exhaustible symbolically).', '§3 C02'),
+    'C17': ('z3 bit-vector queries over an encoding generated from the AST of BaseServer.generate_id (negated clause must be unsat); translation validated against the real method; sat models replayed on the real method',
+            'Complete over the finite domain: for EVERY value of the random source (96 bits) and EVERY counter value in [0, 2^24) the id '
+            'has 20 URL-safe characters, distinct counters give distinct ids, the counter steps by one modulo 2^24 (so any 2^24 '
+            'consecutive ids are pairwise distinct, by the step lemmas), and all random bits are embedded injectively.',
+            'Trusted: z3 (cvc5 cross-check in the thorough tier), the AST translator (validated on 259 concrete pairs per run), '
+            'secrets.token_bytes being the OS CSPRNG.', '§3 C17'),
 }
 
 NOT_BUILT = 'check not built yet in this round (see DESIGN.md §8 build order); not claimed until it runs'
